@@ -7,6 +7,7 @@ documented normalisations applied in the MODEL) and re-dump byte-identically; th
 history continues on the restarted object and the cycle repeats.
 """
 from .. import gen_ci
+from ..kits import KITS
 from ..pools import pick
 
 ID = "C01"
@@ -33,4 +34,10 @@ def generate(rng, tier, idx):
             ops.append({"op": "forest_check"})
     ops.append({"op": "dump", "path": path})
     ops.append({"op": "restart", "path": path, "via": "path"})
+    _machine = "M-CI"
+    if rng.random() < 0.25:
+        # a bystander object with other content lives next to the main one
+        b_build, b_final = KITS[_machine].bystander(rng, tier)
+        cut = rng.randint(1, len(ops))
+        ops = ops[:cut] + b_build + ops[cut:] + b_final + [o for o in ops[-2:] if o["op"] in ("dump", "restart")]
     return {"machine": "M-CI", "cfg": {"simset": pick(rng, ["insertion", "shuffle", "reverse", "sorted"])}, "ops": ops}
